@@ -28,6 +28,7 @@ func runC09(c *Ctx) {
 	c.rule("store-after-verify", "(shared with C04) the update path's store/verify tables", 5)
 	c.rule("publish-after-store", "(shared with C04) publication follows the store", 3)
 	c.rule("reject-reports", "(shared with C04) stacking and verification errors of an update are submitted to the error callback on every path, whatever the delay state: OnWatchedError is withheld only for source-reported errors while suppressed", 6)
+	c.rule("params-read-only", "the verification / callback fields of Params are never assigned inside the library", 1)
 	c.rule("ez-suppression", "the ez entry points request delayed verification and suppression of global callbacks unconditionally (so that the precise-suppression clause is what ez users get)", 2)
 	k := loadCore(c)
 	if !k.ok {
@@ -268,6 +269,7 @@ func runC09(c *Ctx) {
 	for _, sf := range k.storeFns {
 		c04StoreFn(c, k, sf)
 	}
+	k.checkParamsReadOnly("params-read-only")
 }
 
 // c04InitialVerifyGuardOnly: the guard table of Config's Verify under another rule.
